@@ -683,6 +683,13 @@ def evaluate_behaviour(rep, c):
                 rep.count("behaviour:parse-no-answer")
                 continue
             rep.count("behaviour:parse-" + ra.split(" ")[0])
+            if ra.startswith(("timeout", "skipped")) or rf.startswith(("timeout", "skipped")):
+                # a parse that does not finish in 3 s (hang / explosion: properties C15, C03) decides nothing here
+                rep.count("behaviour:parse-inconclusive")
+                note = f"parse did not finish within 3 s (both layouts; C15): {c.grammar!r} {' '.join(c.settings)}"
+                if len(rep.notes) < 6 and not any(n.startswith(note) for n in rep.notes):
+                    rep.notes.append(note + f" input {inp!r}")
+                continue
             if ra != rf:
                 c.problems.append(("impl≠oracle", f"the two layouts parse {inp!r} differently: arrays `{ra}` functions `{rf}`"))
 
@@ -779,7 +786,7 @@ def run(rep, tier, seed):
     if not ok:
         rep.violation({"broken": "harness build", "log": log[-3000:]}, no_input=True)
         return
-    n_random, lit_budget, n_batch, workers = (200, 40, 22, 1) if tier == "quick" else (1500, 200, 140, 4)
+    n_random, lit_budget, n_batch, workers = (200, 40, 22, 1) if tier == "quick" else (6000, 200, 600, 4)
     cases = gen_cases(rng, n_random, lit_budget)
     wd = workdir("c08")
     try:
